@@ -27,7 +27,13 @@ Open Scope Z_scope.
 
 Record buffer := mkBuf { bsize : Z; cells : PositiveMap.t N }.
 
-Definition key (off : Z) : positive := Z.to_pos (off + 1).
+(* offsets as map keys (an injection Z -> positive) *)
+Definition key (off : Z) : positive :=
+  match off with
+  | Z0 => xH
+  | Zpos p => xO p
+  | Zneg p => xI p
+  end.
 
 (* buf[off]; a cell holds a byte: whatever is stored is read modulo 256 *)
 Definition bget (b : buffer) (off : Z) : N :=
@@ -276,6 +282,18 @@ Definition write_block (b : blocks) (idx : Z) (v : N) : blocks * slice_res :=
   | r => (b, r)
   end.
 
+(** * A user writing one byte of a block: w, _ := Block(idx); w[k] = v *)
+
+Definition poke_block (b : blocks) (idx k : Z) (v : N) : blocks * slice_res :=
+  match block b idx with
+  | SliceOk o l =>
+      if (k <? 0) || (l <=? k) then (b, SlicePanic)      (* index out of range *)
+      else
+        (mkBlocks (blkSize b) (blksInSegm b) (segments b) (freeIdx b) (available b)
+           (bset (bts b) (o + k) v), SliceOk o l)
+  | r => (b, r)
+  end.
+
 (** * Operations and outputs (shared by model, spec and the correspondence run) *)
 
 Inductive op :=
@@ -283,6 +301,7 @@ Inductive op :=
 | OFree (idx : Z)
 | OBlock (idx : Z)
 | OWrite (idx : Z) (v : N)   (* fill Block(idx) with the byte v *)
+| OPoke (idx k : Z) (v : N)  (* Block(idx)[k] = v *)
 | OReopen                    (* NewBlocks on the same bytes, continue with the new allocator *)
 | OAvail | OCount | OSegments.
 
@@ -316,6 +335,9 @@ Definition step (page : Z) (fit : bool) (b : blocks) (o : op) : blocks * out :=
   | OBlock idx => (b, out_of_slice (block b idx))
   | OWrite idx v =>
       let '(b', r) := write_block b idx v in
+      (b', match r with SliceOk _ _ => OutOk | _ => out_of_slice r end)
+  | OPoke idx k v =>
+      let '(b', r) := poke_block b idx k v in
       (b', match r with SliceOk _ _ => OutOk | _ => out_of_slice r end)
   | OReopen =>
       match new_blocks page (blkSize b) (bts b) fit with
